@@ -25,8 +25,8 @@ Build(sh) ==
     IN [k \in Keys |-> IF sh[k].t = "dh" THEN [m |-> "d", h |-> DirH(Sig(base, k))] ELSE base[k]]
 AllIndexes == {idx \in {Build(sh) : sh \in [Keys -> Shapes]} : WellFormed(idx)}
 EmptyIdx == [k \in Keys |-> NoEntry]
-OptSets == {[unchanged |-> u, hash_only |-> (m = "hash"), meta_only |-> (m = "meta"), shallow |-> s] :
-              u \in BOOLEAN, m \in {"entry", "hash", "meta"}, s \in BOOLEAN}
+OptSets == {[unchanged |-> u, hash_only |-> (m = "hash"), meta_only |-> (m = "meta"), shallow |-> s, key |-> k] :
+              u \in BOOLEAN, m \in {"entry", "hash", "meta"}, s \in BOOLEAN, k \in {"none", "mode", "cks"}}
 
 Init == /\ old \in AllIndexes /\ new \in AllIndexes /\ opts \in OptSets
         /\ queue = InitQueue(old, new) /\ out = {} /\ pc = "bfs"
